@@ -15,6 +15,7 @@ import Driver.DataType
 import Driver.Query
 import Driver.Dml
 import Driver.Ddl
+import Driver.Tcl
 /-! Model driver: one request per line `op \t arg …`, one answer per line. -/
 namespace Driver
 
@@ -40,6 +41,7 @@ def dispatch (line : String) : String :=
   | "queries" :: args => Qr.handleQueries args
   | "dml" :: args => Dm.handleDml args
   | "ddl" :: args => Dd.handleDdl args
+  | "tcl" :: args => Tc.handleTcl args
   | _ => "bad-op"
 
 partial def loop (h : IO.FS.Stream) (out : IO.FS.Stream) : IO Unit := do
